@@ -6,7 +6,8 @@ from harness import coqio, nets, compiled
 from harness.common import Check
 from translate import parse as t_parse, gatecode as t_gc
 
-THEOREMS = ["C14_dispatch", "C14_parse_sound", "C14_rejects_foreign", "C14_structure", "C14_groupsum_last", "C14_faithful_dense"]
+THEOREMS = ["C14_dispatch", "C14_parse_sound", "C14_rejects_foreign", "C14_structure", "C14_groupsum_last", "C14_faithful_dense",
+            "C14_handle_tables", "C14_handle_histories", "C14_tables_on_parse_refuted"]
 TRUSTED = [
     "Coq 8.16.1 kernel/coqc; theorems closed under the global context",
     "translator translate/parse.py: isinstance dispatch chain of _parse_model (handled classes, behaviour of the final else, Identity) "
@@ -462,6 +463,77 @@ def run(ck: Check):
             ck.disagree("a layer / container whose function was changed (subclass overriding a method forward goes through, forward replaced on the "
                         "instance, forward hook) is compiled as the plain layer", dict(case, differing_rows=sum(1 for a, b in zip(got, exp) if a != b), rows=len(exp)),
                         signature={"what": "modified-layer", "how": kind})
+    # Model/Handle.hrun against one real object: random sequences of {change the container to variant m, get_c_code(), compile(), call}
+    # (variants 1..3 = the same two dense layers with GroupSum(2 / 3 / 4), 0 = an unsupported layer appended); a call is classified as
+    # the outputs of variant l, no library, or garbage.  (variants only GROW the output relative to the installed library when the
+    # discipline read from the source is the old one, so a wrong description cannot make the library write past the buffer here)
+    def _variant(model, m):
+        del model[2:]
+        model.append(_GS({0: 2, 1: 2, 2: 3, 3: 4}[m], 1.0, device="cpu"))
+        if m == 0:
+            model.append(torch.nn.ReLU())
+    torch.manual_seed(ck.seed + 15)
+    base = nets.make_dense(rng, 5, [8, 12], k=2)
+    rows5 = nets.all_rows(5)
+    refs = {}
+    for m in (1, 2, 3):
+        _variant(base, m)
+        refs[m] = [[int(round(v)) for v in r] for r in compiled.torch_eval(base, rows5).tolist()]
+    seqs = [["compile", "call", ("set", 2), "getcode", "call"], ["compile", ("set", 0), "compile", ("set", 1), "call"],
+            ["call", "getcode", "compile", ("set", 3), "getcode", "call", "compile", "call"]]
+    for _ in range(6 if ck.tier == "quick" else 40):
+        sq, mx = [], 1
+        for _ in range(rng.randrange(4, 9)):
+            o = rng.choice(["set", "getcode", "compile", "call", "call"])
+            if o == "set":
+                m = rng.choice([0, 1, 2, 3])
+                sq.append(("set", m))
+            else:
+                sq.append(o)
+        seqs.append(sq)
+    htxt = ("From Coq Require Import List Arith. Import ListNotations.\nFrom TLX Require Import Model.Handle Gen.Parse.\n"
+            "Definition show (o : hout) : nat * nat := match o with HOk => (0, 0) | HRefused => (1, 0) | HValue m => (2, m) | HGarbage => (3, 0) | HNoLibrary => (4, 0) end.\n"
+            "Eval vm_compute in [" + ";\n ".join("map show (hrun tables_discipline_src (hinit 1) [" + "; ".join(
+                (f"HSet {o[1]}" if isinstance(o, tuple) else {"getcode": "HGetCode", "compile": "HCompile", "call": "HCall"}[o]) for o in sq) + "])" for sq in seqs) + "].\n")
+    rc, out, err = ck.coq_eval("c14h", htxt)
+    hpred = coqio.parse_evals(out)[0] if rc == 0 else None
+    if hpred is None:
+        ck.broke("correspondence", "kernel evaluation of Model/Handle", err[-500:])
+    for si, sq in enumerate(seqs):
+        _variant(base, 1)
+        case = {"kind": "handle-sequence", "ops": [list(o) if isinstance(o, tuple) else o for o in sq]}
+        ck.case(case, nontrivial=True, kind="handle-sequence")
+        net = compiled.build(base, 8)
+        obs, installed = [], None
+        for o in sq:
+            if isinstance(o, tuple):
+                _variant(base, o[1])
+                obs.append((0, 0))
+            elif o == "getcode":
+                try:
+                    net.get_c_code()
+                    obs.append((0, 0))
+                except Exception:
+                    obs.append((1, 0))
+            elif o == "compile":
+                try:
+                    compiled.compile_net(net)
+                    obs.append((0, 0))
+                except Exception:
+                    obs.append((1, 0))
+            else:
+                try:
+                    got = [[int(v) for v in r] for r in compiled.forward(net, rows5)]
+                    hit = [m for m in (1, 2, 3) if got == refs[m]]
+                    obs.append((2, hit[0]) if hit else (3, 0))
+                except Exception:
+                    obs.append((4, 0) if net.lib_fn is None else (3, 0))
+        ck.count("handle_sequence_steps", len(sq))
+        if hpred is not None and [tuple(p) for p in hpred[si]] != obs:
+            j = next(i for i in range(len(obs)) if tuple(hpred[si][i]) != obs[i])
+            ck.disagree("one CompiledLogicNet object, container changed between operations: a call does not return the model of the last successful "
+                        "compile (or an operation is accepted / refused differently from the model)", dict(case, step=j, observed=obs, predicted=[list(p) for p in hpred[si]]),
+                        signature={"what": "stale-handle", "kind": "sequence"})
     # decision model in the kernel
     txt = ("From Coq Require Import String List Arith. Import ListNotations.\nFrom TLX Require Import Model.Parse.\nLocal Open Scope string_scope.\n"
            "Eval vm_compute in [" + ";\n ".join(
